@@ -270,7 +270,10 @@ def _run(env, sc, sq, r, ops, crash_at):
             continue
         if not m.complete and any(content.body(u, v).startswith(m.body) for v in served):
             # the client can tell (framing not satisfied), but the hit is not byte-identical to a complete response
-            r.fail("hit-truncated:" + store.split("-")[0], "u%d: only-if-cached 200 after the crash delivered only %d body bytes (a correct prefix) and ended early; crash_at=%d partial=%d" % (
+            # after a *partial* write into a rock slot (header and payload go out in one write()) the same torn slot that can
+            # make a hit differ (listed finding) can also make it end early: a new header, or part of one, over old bytes
+            tcls = ":torn-slot-after-partial-write" if store.startswith("rock") and fired and partial >= 0 else ""
+            r.fail("hit-truncated:" + store.split("-")[0] + tcls, "u%d: only-if-cached 200 after the crash delivered only %d body bytes (a correct prefix) and ended early; crash_at=%d partial=%d" % (
                 u, len(m.body), crash_at, partial))
             continue
         cls = ""
